@@ -1,6 +1,6 @@
 SPECIFICATION Spec
 CONSTANTS
-  W2Grid = 1
+  W2Grid = 17
 INVARIANT InvFunction
 INVARIANT InvTotal
 CHECK_DEADLOCK FALSE
